@@ -2,7 +2,7 @@
 From Coq Require Import ZArith List.
 From Coq Require Extraction.
 From Coq Require Import ExtrOcamlBasic.
-From C20 Require Import Params Model Model2.
+From C20 Require Import Params Model Model2 Model3.
 Extraction Language OCaml.
 Cd "ocaml".
 Extraction "model.ml" giv_multiplier giv_modulo giv_halfmod giv_ctor_normalises
@@ -13,5 +13,7 @@ Extraction "model.ml" giv_multiplier giv_modulo giv_halfmod giv_ctor_normalises
   nonzerorandom_2exp nonzerorandom_int random_between_2exp random_word nonzerorandom_word
   rii_next rii_bits rii_init rii_step qfield_random giv_randiter_clamps ext_size ext_coeff ext_randiter modint_randiter ru_rand modru_random modru_nonzerorandom orc_of_list
   poly_random_resizes poly_random_into poly_random_gfq_into preq_degree poly_seq poly_seq_gfq
-  ri_ctor_size ri_ctor ri_step ri_run mii_ctor rii_ctor_seed modint_nonzero mg_reduc mgru_random mgru_nonzerorandom rm_mga_rand gfqx_init_indices gfqx_random randiter_assign_copies_size.
+  ri_ctor_size ri_ctor ri_step ri_run mii_ctor rii_ctor_seed modint_nonzero mg_reduc mgru_random mgru_nonzerorandom rm_mga_rand gfqx_init_indices gfqx_random randiter_assign_copies_size
+  sized_draws_guard_small_sizes poly_random_guards_negative_degree ring_random_size_src ring_nonzerorandom_size_src gfq_random_src gfq_nonzerorandom_src
+  preq_ok poly_request_src g_run gobj_rii gobj_mii native_bits random_lessthan_any nonzerorandom_any random_between_any.
 Cd "..".
